@@ -213,3 +213,288 @@ def _series_ctor(data=None, index=None, dtype=None):
 PD = types.SimpleNamespace()
 PD.__pyvc_model__ = True
 PD.Series = _series_ctor
+
+
+# =========================================================================== calendar / index
+_PERIOD_FUNS = {}
+
+
+def period_fun(name):
+    """uninterpreted calendar attribute of a timestamp (ns since epoch) - e.g. month(t).  The
+    calendar arithmetic itself is pandas' (T2); the concrete reading calls pandas."""
+    if name not in _PERIOD_FUNS:
+        _PERIOD_FUNS[name] = z3.Function("cal_" + name, z3.IntSort(), z3.IntSort())
+    return _PERIOD_FUNS[name]
+
+
+def period_value(name, tns):
+    """value of the calendar attribute `name` at timestamp tns (algebra value)"""
+    c = alg.as_concrete(tns) if alg.is_sym(tns) else tns
+    if c is not None:
+        import pandas as pd
+
+        ts = pd.Timestamp(int(c))
+        if name in ("week", "weekofyear"):
+            return int(ts.isocalendar().week)
+        return int(getattr(ts, name))
+    return period_fun("week" if name == "weekofyear" else name)(tns)
+
+
+class Timestamp:
+    """pd.Timestamp(x) for a datetime64[ns] scalar"""
+
+    __hash__ = None
+
+    def __init__(self, ns):
+        self.ns = ns
+
+    def _o(self, o):
+        if isinstance(o, Timestamp):
+            return o.ns
+        if isinstance(o, SNum) and o.kind == "M":
+            return o.val
+        return None
+
+    def _cmp(self, o, f):
+        v = self._o(o)
+        if v is None:
+            return NotImplemented
+        return SBool(f(self.ns, v))
+
+    def __lt__(self, o):
+        return self._cmp(o, alg.lt)
+
+    def __le__(self, o):
+        return self._cmp(o, alg.le)
+
+    def __gt__(self, o):
+        return self._cmp(o, alg.gt)
+
+    def __ge__(self, o):
+        return self._cmp(o, alg.ge)
+
+    def __eq__(self, o):
+        return self._cmp(o, alg.eq)
+
+    def __format__(self, spec):
+        return "<Timestamp>"
+
+
+class _TimestampNS:
+    def __call__(self, x):
+        if isinstance(x, Timestamp):
+            return x
+        if isinstance(x, SNum) and x.kind == "M":
+            if x.unit != "ns":
+                raise Unsupported("Timestamp unit")
+            return Timestamp(x.val)
+        import pandas as pd
+
+        if isinstance(x, (str, pd.Timestamp)):
+            return Timestamp(int(pd.Timestamp(x).value))
+        raise Unsupported("pd.Timestamp(%r)" % (type(x),))
+
+    @staticmethod
+    def now():
+        import pandas as pd
+
+        return pd.Timestamp.now()
+
+
+_PERIOD_NAMES = ("year", "month", "day", "hour", "minute", "second", "dayofyear", "day_of_year", "dayofweek", "day_of_week", "weekday", "quarter", "days_in_month")
+
+
+class IsoCal:
+    def __init__(self, week):
+        self.week = week
+
+
+class DatetimeIndex:
+    __hash__ = None
+    __array_priority__ = 1000
+
+    def __init__(self, data):
+        if isinstance(data, DatetimeIndex):
+            data = data.arr
+        if isinstance(data, MArr):
+            data = data._data
+        if not isinstance(data, Arr) or data.kind != "M":
+            raise Unsupported("DatetimeIndex(%r)" % (type(data),))
+        self.arr = data.copy()
+        cur().use("pandas.DatetimeIndex calendar attributes")
+
+    @property
+    def n(self):
+        return self.arr.n
+
+    def __pyvc_array__(self):
+        return self.arr
+
+    def __pyvc_len__(self):
+        return M._len_value(self.arr.n)
+
+    def to_numpy(self):
+        return self.arr.copy()
+
+    @property
+    def dtype(self):
+        return self.arr.dtype
+
+    def isocalendar(self):
+        g = self.arr.getter()
+        return IsoCal(IntSeries(Arr(self.arr.n, "i", lambda i: (False, period_value("week", g(i)[1]))), frame=True))
+
+    def __getattr__(self, name):
+        if name in _PERIOD_NAMES:
+            g = self.arr.getter()
+            return IntIndex(Arr(self.arr.n, "i", lambda i: (False, period_value(name, g(i)[1]))))
+        raise AttributeError(name)
+
+    def _cmp(self, o, op):
+        if isinstance(o, Timestamp):
+            o = SNum(o.ns, False, "M", "ns")
+        if isinstance(o, SNum) and o.kind == "M":
+            return M.ew_binop(op, self.arr, o)
+        raise TypeError("Invalid comparison between dtype=datetime64[ns] and %s" % type(o).__name__)
+
+    def __lt__(self, o):
+        return self._cmp(o, "lt")
+
+    def __le__(self, o):
+        return self._cmp(o, "le")
+
+    def __gt__(self, o):
+        return self._cmp(o, "gt")
+
+    def __ge__(self, o):
+        return self._cmp(o, "ge")
+
+    def __getitem__(self, idx):
+        r = self.arr[idx]
+        if isinstance(r, Arr):
+            return DatetimeIndex(r)
+        return r
+
+
+class IntIndex:
+    """pd.Index of integers: comparisons give plain boolean ndarrays"""
+
+    __hash__ = None
+    __array_priority__ = 1000
+
+    def __init__(self, arr):
+        self.arr = arr
+
+    def __pyvc_array__(self):
+        return self.arr
+
+    def to_series(self):
+        return IntSeries(self.arr)
+
+    def _cmp(self, o, op):
+        if not M.is_scalar(o):
+            raise Unsupported("Index comparison with %r" % (type(o),))
+        return M.ew_binop(op, self.arr, o)
+
+    def __lt__(self, o):
+        return self._cmp(o, "lt")
+
+    def __le__(self, o):
+        return self._cmp(o, "le")
+
+    def __gt__(self, o):
+        return self._cmp(o, "gt")
+
+    def __ge__(self, o):
+        return self._cmp(o, "ge")
+
+
+class IntSeries:
+    """Series of integers: comparisons give boolean Series"""
+
+    __hash__ = None
+    __array_priority__ = 1000
+
+    def __init__(self, arr, frame=False):
+        self.arr = arr
+
+    def __pyvc_array__(self):
+        return self.arr
+
+    def _cmp(self, o, op):
+        if not M.is_scalar(o):
+            raise Unsupported("Series comparison with %r" % (type(o),))
+        return BoolSeries(M.ew_binop(op, self.arr, o))
+
+    def __lt__(self, o):
+        return self._cmp(o, "lt")
+
+    def __le__(self, o):
+        return self._cmp(o, "le")
+
+    def __gt__(self, o):
+        return self._cmp(o, "gt")
+
+    def __ge__(self, o):
+        return self._cmp(o, "ge")
+
+
+class BoolSeries:
+    """boolean Series.  `series & masked_array` (measured, numpy 1.26 / pandas 3.0): the result is
+    a boolean Series that is True wherever the masked array is masked and `s & data` elsewhere."""
+
+    __hash__ = None
+    __array_priority__ = 1000
+
+    def __init__(self, arr):
+        assert arr.kind == "b"
+        self.arr = arr
+
+    def __pyvc_array__(self):
+        return self.arr
+
+    def _bin(self, o, op):
+        a = self.arr
+        ga = a.getter()
+        if isinstance(o, BoolSeries):
+            o = o.arr
+        if isinstance(o, MArr):
+            cur().use("pandas Series[bool] & numpy MaskedArray")
+            if not M._same_len(a.n, o.n):
+                raise ValueError("operands could not be broadcast together")
+            gd = o._data.getter()
+            gm = o._mask.getter() if o._mask is not None else (lambda i: (False, False))
+            f = alg.and_ if op == "and" else alg.or_
+            kd = o._data.kind
+            return BoolSeries(Arr(a.n, "b", lambda i: (False, alg.or_(gm(i)[1], f(ga(i)[1], M._truth_pair(gd(i), kd))))))
+        if isinstance(o, Arr):
+            if o.kind != "b":
+                raise Unsupported("Series & non-bool array")
+            return BoolSeries(M.ew_binop(op, a, o))
+        return NotImplemented
+
+    def __and__(self, o):
+        return self._bin(o, "and")
+
+    def __or__(self, o):
+        return self._bin(o, "or")
+
+    def __rand__(self, o):
+        # ndarray & Series -> Series (pandas takes priority); MaskedArray & Series likewise
+        return self._bin(o, "and")
+
+    def __invert__(self):
+        return BoolSeries(M.ew_unop("invert", self.arr))
+
+
+def _index_ctor(data, dtype=None):
+    if isinstance(data, IntSeries):
+        return IntIndex(data.arr)
+    if isinstance(data, IntIndex):
+        return data
+    raise Unsupported("pd.Index(%r)" % (type(data),))
+
+
+PD.DatetimeIndex = DatetimeIndex
+PD.Timestamp = _TimestampNS()
+PD.Index = _index_ctor
